@@ -22,7 +22,7 @@ RULE = (
     "non-trivial = both sides non-empty with a candidate pair and a non-identity transform; distinct by (base, transform, input type)"
 )
 ASSUMPTIONS = ["guard: equality only when no two competing candidate pairs tie; otherwise the transformed result must be an admissible result of the reference model"]
-BUDGET = {"quick": 240, "thorough": 2400}
+BUDGET = {"quick": 240, "thorough": 3000}
 MATCHER = ["thr", "IOU", 0.5, False]
 
 
